@@ -22,7 +22,6 @@ import traceback
 SLACK = 32
 DIRTY = 0xA5
 CONFIGS = [("little", "little", False), ("big", "big", False), ("both", "both", False), ("both_be", "both", True)]
-CFLAGS = os.environ.get("VERIF_C04_CFLAGS", "-O1").split()
 
 
 def _alarm(_s, _f):
@@ -86,11 +85,12 @@ def build(job, outs, cfg, endian, macro):
         f.write("\n".join(probe) + "\n")
     so = os.path.join(od, f"lib_{cfg}.so")
     srcs = [os.path.join(od, n) for n in sorted(outs["c"][endian]) if n.endswith(".c")]
-    cmd = ["gcc", "-shared", "-fPIC", "-w"] + CFLAGS + (["-DBP_BIG_ENDIAN"] if macro else []) + \
+    cc = job.get("cc") or ["gcc", "-O1"]
+    cmd = [cc[0], "-shared", "-fPIC", "-w"] + cc[1:] + (["-DBP_BIG_ENDIAN"] if macro else []) + \
           ["-I", od, "-o", so, ppath] + srcs
     p = subprocess.run(cmd, capture_output=True, text=True, timeout=240)
     if p.returncode != 0:
-        raise RuntimeError("gcc failed: " + p.stderr[-800:])
+        raise RuntimeError(cc[0] + " failed: " + p.stderr[-800:])
     return so
 
 
